@@ -176,8 +176,16 @@ func Reads(r *Rep, keys int) string {
 	return sb.String()
 }
 
+// pointerToken escapes an object key for a JSON-pointer path.
+func pointerToken(k string) string {
+	return strings.ReplaceAll(strings.ReplaceAll(k, "~", "~0"), "/", "~1")
+}
+
 func sweepDoc(sb *strings.Builder, d orda.Document, depth int) {
-	fmt.Fprintf(sb, "{t=%d v=%s", d.GetTypeOfJSON(), Canon(d.GetValue()))
+	fmt.Fprintf(sb, "{t=%d v=%s g=%v", d.GetTypeOfJSON(), Canon(d.GetValue()), d.IsGarbage())
+	if root := d.GetRootDocument(); root != nil {
+		fmt.Fprintf(sb, " root=%s", Canon(root.GetValue()))
+	}
 	if depth < 3 {
 		switch vv := d.GetValue().(type) {
 		case map[string]interface{}:
@@ -187,6 +195,17 @@ func sweepDoc(sb *strings.Builder, d orda.Document, depth int) {
 				if err != nil || c == nil {
 					fmt.Fprintf(sb, "<nil/%v>", err != nil)
 					continue
+				}
+				// the same child reached by path, and its way back up
+				if k != "" && !strings.Contains(k, "~") && !strings.Contains(k, "/") {
+					if bp, e := d.GetByPath("/" + k); e != nil || bp == nil {
+						fmt.Fprintf(sb, "<bypath-err/%v>", e != nil)
+					} else {
+						fmt.Fprintf(sb, "<bypath=%v,%s>", bp.Equal(c), Canon(bp.GetValue()))
+					}
+				}
+				if par := c.GetParentDocument(); par != nil {
+					fmt.Fprintf(sb, "<parent=%v>", par.Equal(d))
 				}
 				sweepDoc(sb, c, depth+1)
 			}
